@@ -19,8 +19,25 @@ Proof. vm_compute. reflexivity. Qed.
 Example ex_hyp_A :
   first_exit 10 [ESpawn 11; EReg 0 0; EExit 11 9; EExit 10 768] = Some 768 /\
   (exists e, In e [ESpawn 11; EReg 0 0; EExit 11 9; EExit 10 768] /\ is_reg_of 0 e) /\
-  In ESigchld [ESigchld] /\ In ELoop [ELoop].
-Proof. split; [reflexivity|]. split; [exists (EReg 0 0); split; [right; left; reflexivity|exact I]|]. split; left; reflexivity. Qed.
+  w_init (run ([] ++ ESpawn 10 :: [ESpawn 11; EReg 0 0; EExit 11 9; EExit 10 768])) = true /\ In ELoop [ELoop].
+Proof. split; [reflexivity|]. split; [exists (EReg 0 0); split; [right; left; reflexivity|exact I]|]. split; [reflexivity|left; reflexivity]. Qed.
+
+(* hypotheses of C42_one_sigchld_serves_all_children: five registered children, all dead, handler installed *)
+Definition ex_five : list event :=
+  [ESpawn 10; ESpawn 11; ESpawn 12; ESpawn 13; ESpawn 14; EReg 0 0; EReg 1 1; EReg 2 2; EReg 3 3; EReg 4 4;
+   EExit 13 768; EExit 11 256; EExit 14 1024; EExit 10 0; EExit 12 512].
+Example ex_five_hyp : wf ex_five = true /\ w_init (run ex_five) = true /\
+  map (fun sid => option_map (fun c => (c_ph c, c_inw c)) (track sid ex_five)) [0;1;2;3;4]%nat =
+  [Some (PhZombie 0, true); Some (PhZombie 256, true); Some (PhZombie 512, true); Some (PhZombie 768, true); Some (PhZombie 1024, true)].
+Proof. vm_compute. repeat split. Qed.
+Example ex_five_result : w_log (run (ex_five ++ [ESigchld; ELoop])) = [LCall 0 0 0; LCall 1 1 1; LCall 2 2 2; LCall 3 3 3; LCall 4 4 4].
+Proof. vm_compute. reflexivity. Qed.
+
+(* uninitialize(): the SIGCHLD is lost on the process; the child is found when the handler is back and another SIGCHLD comes *)
+Example ex_uninit :
+  w_log (run [ESpawn 5; EReg 0 0; EUninit; EExit 5 256; ESigchld; ELoop]) = [] /\
+  w_log (run [ESpawn 5; EReg 0 0; EUninit; EExit 5 256; ESigchld; ELoop; EInit; ESigchld; ELoop]) = [LCall 0 0 1].
+Proof. vm_compute. split; reflexivity. Qed.
 
 (* hypotheses of C42_exactly_once_exit_before_registration for object 1 *)
 Example ex_hyp_B :
@@ -32,8 +49,8 @@ Proof. split; [reflexivity|]. split; [exists (EWait 1 1 true); split; [left; ref
    pending for ever; since fix 830934b it is resolved at the next loop turn and nothing is left in _waiting *)
 Definition ex_late : list event :=
   [ESpawn 5; EWait 0 0 false; EExit 5 0; ESigchld; ELoop; EWait 0 1 true; ELoop].
-Example ex_late_phase : c_ph (fold_left (cstep 0) [EWait 0 0 false; EExit 5 0; ESigchld; ELoop] (cinit 5)) = PhReported 0.
-Proof. reflexivity. Qed.
+Example ex_late_phase : option_map c_ph (track 0 [ESpawn 5; EWait 0 0 false; EExit 5 0; ESigchld; ELoop]) = Some (PhReported 0).
+Proof. vm_compute. reflexivity. Qed.
 Example ex_late_result :
   w_log (run ex_late) = [LCall 0 0 0; LCall 0 1 0] /\
   option_map s_futs (nth_error (w_subs (run ex_late)) 0) = Some [(0%nat, FResult 0); (1%nat, FResult 0)] /\
